@@ -227,12 +227,9 @@ theorem C09_ibrun_count (c : IbrunCfg) (t : Task) (cmd : Cmd) (h : cmdIbrun c t 
   unfold cmdIbrun at h
   split at h
   · cases h
-  · simp only at h
-    split at h
+  · split at h
+    · cases h
     · injection h with h; subst h; rfl
-    · split at h
-      · cases h
-      · injection h with h; subst h; rfl
 
 /-- the IBRUN offset starts at the first node of the RM's list that the placement uses:
     `tpn` task slots are skipped for every unused node before it -/
@@ -247,6 +244,121 @@ theorem C09_ibrun_first (tpn : Nat) (used pre post : List Nat) (n acc : Nat)
     rw [ih (acc + tpn) (fun x hx => hpre x (mem_cons_of_mem _ hx))]
     congr 2
     rw [Nat.mul_succ]; omega
+
+theorem foldl_min_head (x : Nat) (xs : List Nat) (h : ∀ y ∈ xs, x ≤ y) : xs.foldl min x = x := by
+  induction xs with
+  | nil => rfl
+  | cons y ys ih =>
+    simp only [foldl_cons]
+    rw [Nat.min_eq_left (h y mem_cons_self)]
+    exact ih (fun z hz => h z (mem_cons_of_mem _ hz))
+
+/-- **IBRUN round trip**: for every placement `ibrun` can express - ranks on consecutive task slots
+    of the job, starting at any slot `off`, over any number of nodes - the offset the launch method
+    computes is that `off`, so the command starts every rank on the node and cores of its slot -/
+theorem C09_ibrun_roundtrip (c : IbrunCfg) (t : Task) (tpn off n : Nat) (htpn : 0 < tpn) (hn : 0 < n) (hcpr : 0 < t.cpr)
+    (hnd : c.nodeIdx.Nodup) (hfit : (off + (n - 1)) / tpn < c.nodeIdx.length)
+    (hs : t.slots = ibrunPlace tpn t.cpr c.nodeIdx off n) :
+    ibrunOffset tpn c t = .ok off := by
+  obtain ⟨m, rfl⟩ : ∃ m, n = m + 1 := ⟨n - 1, by omega⟩
+  have hq : ∀ j, j < m + 1 → off / tpn ≤ (off + j) / tpn ∧ (off + j) / tpn < c.nodeIdx.length := by
+    intro j hj
+    refine ⟨Nat.div_le_div_right (by omega), Nat.lt_of_le_of_lt (Nat.div_le_div_right (by omega)) hfit⟩
+  have hp0 : off / tpn < c.nodeIdx.length := (hq 0 (by omega)).2
+  have hgetD : ∀ q, q < c.nodeIdx.length → c.nodeIdx.getD q 0 = c.nodeIdx[q]! := by
+    intro q hq'; simp [List.getD, hq']
+  -- the node list split at the first used node
+  have hsplit : c.nodeIdx = c.nodeIdx.take (off / tpn) ++ c.nodeIdx[off / tpn] :: c.nodeIdx.drop (off / tpn + 1) := by
+    rw [← List.drop_eq_getElem_cons hp0, List.take_append_drop]
+  -- positions in a duplicate-free list
+  have hinj : ∀ a b (ha : a < c.nodeIdx.length) (hb : b < c.nodeIdx.length), c.nodeIdx[a] = c.nodeIdx[b] → a = b := by
+    intro a b ha hb e
+    exact (List.getElem?_inj ha hnd).mp (by rw [List.getElem?_eq_getElem ha, List.getElem?_eq_getElem hb, e])
+  have hnode : ∀ j (hj : j < m + 1), c.nodeIdx.getD ((off + j) / tpn) 0 = c.nodeIdx[(off + j) / tpn]'(hq j hj).2 := by
+    intro j hj
+    simp [List.getD, List.getElem?_eq_getElem (hq j hj).2]
+  have hused : t.slots.map (·.nodeIndex) = (List.range (m + 1)).map (fun j => c.nodeIdx.getD ((off + j) / tpn) 0) := by
+    rw [hs, ibrunPlace, map_map]; rfl
+  have hpre : ∀ x ∈ c.nodeIdx.take (off / tpn), x ∉ t.slots.map (·.nodeIndex) := by
+    intro x hx hu
+    rw [hused] at hu
+    obtain ⟨j, hj, e⟩ := mem_map.mp hu
+    have hj' : j < m + 1 := mem_range.mp hj
+    obtain ⟨i, hi, e2⟩ := List.getElem_of_mem hx
+    rw [List.length_take] at hi
+    have hi' : i < off / tpn := by omega
+    rw [List.getElem_take] at e2
+    rw [hnode j hj'] at e
+    have := hinj i ((off + j) / tpn) (by omega) (hq j hj').2 (by rw [e2, e])
+    have := (hq j hj').1
+    omega
+  have hn0 : c.nodeIdx[off / tpn] ∈ t.slots.map (·.nodeIndex) := by
+    rw [hused]
+    exact mem_map.mpr ⟨0, mem_range.mpr (by omega), by rw [hnode 0 (by omega)]; simp⟩
+  have hfirst : ibrunFirst tpn (t.slots.map (·.nodeIndex)) c.nodeIdx 0 = some (tpn * (off / tpn), c.nodeIdx[off / tpn]) := by
+    have := C09_ibrun_first tpn (t.slots.map (·.nodeIndex)) (c.nodeIdx.take (off / tpn)) (c.nodeIdx.drop (off / tpn + 1))
+              c.nodeIdx[off / tpn] 0 hpre hn0
+    rw [← hsplit, List.length_take, Nat.min_eq_left (by omega), Nat.zero_add] at this
+    exact this
+  unfold ibrunOffset
+  rw [hfirst]
+  simp only
+  -- the slots: rank 0 first, then the others
+  have hslots : t.slots = (ibrunPlace tpn t.cpr c.nodeIdx off 1) ++ (List.range m).map (fun j =>
+      ({ host := c.nodeIdx.getD ((off + (j + 1)) / tpn) 0, nodeIndex := c.nodeIdx.getD ((off + (j + 1)) / tpn) 0,
+         cores := (List.range t.cpr).map (fun k => ((off + (j + 1)) % tpn) * t.cpr + k), gpus := [] } : Slot)) := by
+    rw [hs, ibrunPlace, List.range_succ_eq_map, map_cons, map_map]
+    simp [ibrunPlace, Function.comp, Nat.add_assoc]
+  obtain ⟨cp, hcp⟩ : ∃ cp, t.cpr = cp + 1 := ⟨t.cpr - 1, by omega⟩
+  have hcores_ne : ∀ s ∈ t.slots, s.cores ≠ [] := by
+    intro s hs'
+    rw [hs, ibrunPlace] at hs'
+    obtain ⟨j, _, rfl⟩ := mem_map.mp hs'
+    simp [hcp, List.range_succ_eq_map]
+  have hany : (t.slots.filter (fun s => s.nodeIndex = c.nodeIdx[off / tpn])).any (fun s => s.cores = []) = false := by
+    apply Bool.eq_false_iff.mpr
+    intro h
+    obtain ⟨s, hs', hc⟩ := any_eq_true.mp h
+    exact hcores_ne s (mem_filter.mp hs').1 (by simpa using hc)
+  rw [hany]
+  simp only [Bool.false_eq_true, if_false]
+  -- the minimum over the first node is the first core of rank 0
+  have hmin : listMin ((t.slots.filter (fun s => s.nodeIndex = c.nodeIdx[off / tpn])).map (fun s => s.cores.headD 0))
+      = (off % tpn) * t.cpr := by
+    rw [hslots]
+    have h0 : ibrunPlace tpn t.cpr c.nodeIdx off 1 =
+        [{ host := c.nodeIdx[off / tpn], nodeIndex := c.nodeIdx[off / tpn],
+           cores := (List.range t.cpr).map (fun k => (off % tpn) * t.cpr + k), gpus := [] }] := by
+      have := hnode 0 (by omega)
+      simp only [Nat.add_zero] at this
+      simp [ibrunPlace, List.getElem?_eq_getElem hp0]
+    rw [h0, filter_append, filter_cons, filter_nil]
+    simp only [decide_true, if_true, cons_append, nil_append, map_cons]
+    unfold listMin
+    have hhead : ((List.range t.cpr).map (fun k => (off % tpn) * t.cpr + k)).headD 0 = (off % tpn) * t.cpr := by
+      rw [hcp]; simp [List.range_succ_eq_map]
+    rw [hhead]
+    apply foldl_min_head
+    intro y hy
+    obtain ⟨s, hs', rfl⟩ := mem_map.mp hy
+    obtain ⟨hs1, hs2⟩ := mem_filter.mp hs'
+    obtain ⟨j, hj, rfl⟩ := mem_map.mp hs1
+    have hj' : j + 1 < m + 1 := by have := mem_range.mp hj; omega
+    simp only [decide_eq_true_eq] at hs2
+    rw [hnode (j + 1) hj'] at hs2
+    have hqeq := hinj _ _ (hq (j + 1) hj').2 hp0 hs2
+    have hh : ((List.range t.cpr).map (fun k => ((off + (j + 1)) % tpn) * t.cpr + k)).headD 0 = ((off + (j + 1)) % tpn) * t.cpr := by
+      rw [hcp]; simp [List.range_succ_eq_map]
+    simp only [hh]
+    apply Nat.mul_le_mul_right
+    -- same quotient, larger number: larger remainder
+    have e1 := Nat.div_add_mod off tpn
+    have e2 := Nat.div_add_mod (off + (j + 1)) tpn
+    rw [hqeq] at e2
+    omega
+  rw [hmin, Nat.mul_div_cancel _ hcpr]
+  have := Nat.div_add_mod off tpn
+  congr 1
 
 /-! ## no residue: a launcher answers a task the same way whatever it answered before -/
 
